@@ -137,7 +137,7 @@ def r17_1(ctx):
     ctx.require(0 < const(ctx, APP, "NETWORK_UP_TIMEOUT_S") <= 120, "NETWORK_UP_TIMEOUT_S", "NETWORK_UP_TIMEOUT_S out of range")
 
 
-@rule("R17.3", ["C17"], "T-FUT", floor=4)
+@rule("R17.3", ["C17", "C18"], "T-FUT", floor=4)
 def r17_3(ctx):
     """Status fan-out: stack_status_callback normalises the reported status and completes every open listener of
     that status; a listener that is already done (e.g. cancelled but not yet removed) neither raises nor prevents the
@@ -172,7 +172,7 @@ def r17_3(ctx):
                 exp = (["f2"] if done_first else ["f1", "f2"]) if want == "NETWORK_UP" else ["d1"]
                 ok = p.terminal == "return" and got == exp and all(isinstance(e.args[0], Member) and e.args[0].name == want for e in sr)
                 ctx.require(ok, f"fanout:done_first={done_first}", f"status {st_in!r} with listeners [f1{'(done)' if done_first else ''}, f2 | d1]: completes {got} "
-                            f"(expected {exp}), {p.terminal} {p.value if p.terminal == 'raise' else ''}", func=f, trace=p.trace(12))
+                            f"(expected {exp}), {p.terminal} {p.value if p.terminal == 'raise' else ''}", func=f, trace=p.trace(12), props=("C17",))
     # every legacy status byte (defined or not): only the legacy NETWORK_UP code completes the waiters for "network up" and only
     # NETWORK_DOWN those for "network down" - a stray or unknown status must not be taken for the awaited event
     ec = repo.cls(NAMED, "EmberStatus")
@@ -189,10 +189,30 @@ def r17_3(ctx):
             got = sorted(e.callee.split(".")[0] for e in p.events if e.kind == "call" and e.what.endswith(".set_result"))
             exp = ["u1"] if m.name == "NETWORK_UP" else (["d1"] if m.name == "NETWORK_DOWN" else [])
             ctx.require(p.terminal == "return" and got == exp, f"fanout:legacy-status:{'up-down' if exp else 'other'}",
-                        f"stack status {m!r}: completes the waiters {got} (expected {exp}); {p.terminal} {p.value if p.terminal == 'raise' else ''}", func=f, trace=p.trace(10))
+                        f"stack status {m!r}: completes the waiters {got} (expected {exp}); {p.terminal} {p.value if p.terminal == 'raise' else ''}", func=f, trace=p.trace(10), props=("C17",))
+    # per protocol version, with the status in the type that version's stackStatusHandler schema declares (legacy up to v13, unified
+    # from v14): NETWORK_UP / NETWORK_DOWN reach their waiters in every version (a version test that skips the normalisation one
+    # generation too early leaves the raw legacy code unmatched)
+    from ..su import VERSIONS as _VS
+
+    for v_ in _VS:
+        rx = repo.get(f"bellows.ezsp.v{v_}.commands", "COMMANDS")["stackStatusHandler"][2]
+        fam = getattr(list(rx.values())[0], "name", "EmberStatus")
+        members = repo.cls(NAMED, fam).members()
+        for want in ("NETWORK_UP", "NETWORK_DOWN"):
+            import collections as _c2
+            hv = repo.cls(f"bellows.ezsp.v{v_}", f"EZSPv{v_}")
+            for p in pxa.explore(f, lambda: (self_obj(cls, {"_ezsp_version": v_, "_protocol": self_obj(hv, {}, tag="handler"),
+                                                           "_stack_status_listeners": _c2.defaultdict(list, {sl["NETWORK_UP"]: [fut("u1")], sl["NETWORK_DOWN"]: [fut("d1")]})}),
+                                             {"frame_name": "stackStatusHandler", "args": [members[want]]})):
+                ctx.paths += 1
+                got = sorted(e.callee.split(".")[0] for e in p.events if e.kind == "call" and e.what.endswith(".set_result"))
+                exp = ["u1"] if want == "NETWORK_UP" else ["d1"]
+                ctx.require(p.terminal == "return" and got == exp, f"fanout:v{v_}:{want}", f"protocol v{v_}, stack status {members[want]!r} (as that version reports it): "
+                            f"completes the waiters {got}, expected {exp}", func=f, trace=p.trace(10), props=("C17", "C18"))
     px = PX(repo, inline=same_class())
     for p in px.explore(f, lambda: (self_obj(cls, {"_stack_status_listeners": {sl["NETWORK_UP"]: [fut("f1")]}}), {"frame_name": "otherHandler", "args": [es["NETWORK_UP"]]})):
-        ctx.require(p.terminal == "return" and not [e for e in p.events if e.kind == "call"], "fanout:other-frame", "a frame other than stackStatusHandler touches listeners", func=f)
+        ctx.require(p.terminal == "return" and not [e for e in p.events if e.kind == "call"], "fanout:other-frame", "a frame other than stackStatusHandler touches listeners", func=f, props=("C17",))
 
 
 @rule("R17.4", ["C17"], "T-PAIR", floor=7)
